@@ -491,7 +491,21 @@ class Interp(object):
                 for pres, v in self.iter_items(leaf, fr, pc):
                     yield vc.c_andg(pres, g), v
             return
-        if t is Pair or t is StructStr or t is Opaque or isinstance(it, (Obj, ClassVal)):
+        if t is Pair:
+            # product execution: the two sides iterate over their own sequences; the loop runs
+            # to the longer length with per-side activity
+            from .values import mkpair
+
+            try:
+                la, lb = list(it.l), list(it.r)
+            except Exception:  # noqa: BLE001
+                raise Unsupported("iteration over %r" % (it,))
+            T, F = vc.T, vc.F
+            for i in range(max(len(la), len(lb))):
+                pres = Cond(T if i < len(la) else F, T if i < len(lb) else F)
+                yield pres, mkpair(la[i] if i < len(la) else UNBOUND, lb[i] if i < len(lb) else UNBOUND)
+            return
+        if t is StructStr or t is Opaque or isinstance(it, (Obj, ClassVal)):
             raise Unsupported("iteration over %r" % (it,))
         if isinstance(it, (set, frozenset)):
             self.hash_order_iterations.append(("set", pc))
